@@ -727,3 +727,213 @@ Qed.
 Lemma merge_neq_refused k v1 v2 md :
   infixb s_neq k = true -> md_get k md = Some v1 -> merge_step md (k, v2) = SigmaErr E_Value.
 Proof. intros Hn Hg. unfold merge_step. rewrite Hg, Hn. reflexivity. Qed.
+
+(* ====================================================================================
+   The merge path preserves the meaning of the mapping: AND of all entries
+   ==================================================================================== *)
+Lemma split_nonempty s : exists x t, split_pipe s = x :: t.
+Proof.
+  induction s as [|c s [x [t IH]]]; simpl; [eauto|].
+  destruct (N.eqb c c_pipe); [eauto|]. rewrite IH. eauto.
+Qed.
+
+Lemma split_pipe_app a b : split_pipe (a ++ c_pipe :: b) = split_pipe a ++ split_pipe b.
+Proof.
+  induction a as [|c a IH].
+  - cbn [app split_pipe]. rewrite N.eqb_refl. reflexivity.
+  - cbn [app split_pipe]. destruct (N.eqb c c_pipe).
+    + rewrite IH. reflexivity.
+    + rewrite IH. destruct (split_nonempty a) as [x [t E]]. rewrite E. reflexivity.
+Qed.
+
+Lemma split_all k : split_pipe (k ++ s_all) = split_pipe k ++ [s_allid].
+Proof. change s_all with (c_pipe :: s_allid). rewrite split_pipe_app. reflexivity. Qed.
+
+Lemma segs_all_app k : segs_all (k ++ s_all) = true.
+Proof.
+  unfold segs_all. rewrite split_all. destruct (split_nonempty k) as [x [t E]]. rewrite E.
+  cbn [app tl]. rewrite existsb_app. simpl. rewrite orb_true_r. reflexivity.
+Qed.
+
+Lemma base_key_app k : base_key (k ++ s_all) = base_key k.
+Proof.
+  unfold base_key. rewrite split_all. destruct (split_nonempty k) as [x [t E]]. rewrite E.
+  cbn [app]. rewrite filter_app. simpl. rewrite app_nil_r. reflexivity.
+Qed.
+
+Lemma infixb_app_r p a : infixb p (a ++ p) = true.
+Proof.
+  induction a as [|c a IH].
+  - cbn [app]. destruct p; simpl.
+    + reflexivity.
+    + rewrite N.eqb_refl. replace (prefixb p p) with true; [reflexivity|].
+      symmetry. rewrite <- (app_nil_r p) at 2. apply prefixb_app.
+  - cbn [app infixb]. rewrite IH. apply orb_true_r.
+Qed.
+
+Section MergeMeaning.
+Variable h : list str -> pv -> bool.
+Notation den_entry := (den_entry h).
+Notation den := (den_map h).
+
+Lemma den_get_del k : forall md ev, md_get k md = Some ev ->
+  den md = den_entry (k, ev) && den (md_del k md).
+Proof.
+  induction md as [|[k' v'] md IH]; intros ev H; [discriminate|].
+  cbn [md_get md_del] in *. destruct (str_eqb k' k) eqn:E.
+  - apply str_eqb_eq in E. subst k'. inversion H; subst. reflexivity.
+  - unfold den_map in *. cbn [forallb]. rewrite (IH _ H).
+    destruct (den_entry (k', v')), (den_entry (k, ev)); reflexivity.
+Qed.
+
+Lemma den_set_present k w : forall md ev, md_get k md = Some ev ->
+  den (md_set k w md) = den_entry (k, w) && den (md_del k md).
+Proof.
+  induction md as [|[k' v'] md IH]; intros ev H; [discriminate|].
+  cbn [md_get md_set md_del] in *. destruct (str_eqb k' k) eqn:E.
+  - apply str_eqb_eq in E. subst k'. reflexivity.
+  - unfold den_map in *. cbn [forallb]. rewrite (IH _ H).
+    destruct (den_entry (k', v')), (den_entry (k, w)); reflexivity.
+Qed.
+
+Lemma md_set_absent k w : forall md, md_get k md = None -> md_set k w md = md ++ [(k, w)].
+Proof.
+  induction md as [|[k' v'] md IH]; intros H; [reflexivity|].
+  cbn [md_get md_set] in *. destruct (str_eqb k' k); [discriminate|]. rewrite IH by exact H. reflexivity.
+Qed.
+
+Lemma den_app a b : den (a ++ b) = den a && den b.
+Proof. unfold den_map. apply forallb_app. Qed.
+
+Lemma get_del_other k k2 : str_eqb k k2 = false -> forall md, md_get k2 (md_del k md) = md_get k2 md.
+Proof.
+  intros Hne. induction md as [|[k' v'] md IH]; [reflexivity|].
+  cbn [md_del md_get]. destruct (str_eqb k' k) eqn:E.
+  - apply str_eqb_eq in E. subst k'. rewrite Hne. reflexivity.
+  - cbn [md_get]. rewrite IH. reflexivity.
+Qed.
+
+Lemma del_set_comm k ak w : str_eqb k ak = false -> forall md mak, md_get ak md = Some mak ->
+  md_del k (md_set ak w md) = md_set ak w (md_del k md).
+Proof.
+  intros Hne. induction md as [|[k' v'] md IH]; intros mak H; [discriminate|].
+  cbn [md_get md_set md_del] in *. destruct (str_eqb k' ak) eqn:Ea.
+  - apply str_eqb_eq in Ea. subst k'. cbn [md_del]. rewrite str_eqb_sym, Hne. cbn [md_set]. rewrite str_eqb_refl. reflexivity.
+  - cbn [md_del]. destruct (str_eqb k' k) eqn:Ek.
+    + apply str_eqb_eq in Ek. subst k'.
+      (* the entry of k is removed; ak lies behind it *)
+      clear IH. revert mak H. generalize md. induction md0 as [|[k2 v2] md0 IH0]; intros mak H; [discriminate|].
+      reflexivity.
+    + cbn [md_set]. rewrite Ea. rewrite (IH _ H). reflexivity.
+Qed.
+
+Lemma del_app_present k : forall md ev tl, md_get k md = Some ev -> md_del k (md ++ tl) = md_del k md ++ tl.
+Proof.
+  induction md as [|[k' v'] md IH]; intros ev tl H; [discriminate|].
+  cbn [md_get md_del app] in *. destruct (str_eqb k' k); [reflexivity|].
+  rewrite (IH _ _ H). reflexivity.
+Qed.
+
+Lemma vals_unwrap v : vals_of (unwrap1 v) = vals_of v.
+Proof. destruct v as [x|[|x [|y l]]]; reflexivity. Qed.
+
+Lemma not_many_one v : is_many (unwrap1 v) = false -> exists x, vals_of v = [x].
+Proof. destruct v as [x|[|x [|y l]]]; simpl; intros H; try discriminate; eauto. Qed.
+
+Lemma den_entry_all k v : segs_all k = true -> den_entry (k, v) = forallb (h (base_key k)) (vals_of v).
+Proof. intros H. unfold RoundTrip.den_entry. cbn [fst snd]. rewrite H. reflexivity. Qed.
+Lemma den_entry_any k v : segs_all k = false -> den_entry (k, v) = existsb (h (base_key k)) (vals_of v).
+Proof. intros H. unfold RoundTrip.den_entry. cbn [fst snd]. rewrite H. reflexivity. Qed.
+
+(* one round of the merge loop keeps the meaning: old mapping AND the new entry *)
+Lemma merge_step_sound md k v md' :
+  key_wf k -> merge_step md (k, v) = Ok md' -> den md' = den md && den_entry (k, v).
+Proof.
+  intros Hwf H. unfold merge_step in H. destruct (md_get k md) as [ev|] eqn:Hg.
+  2:{ inversion H; subst. rewrite (md_set_absent _ _ _ Hg), den_app. unfold den_map at 2. simpl.
+      rewrite andb_true_r. reflexivity. }
+  destruct (infixb s_neq k); [discriminate|].
+  destruct (is_empty_list v || is_empty_list ev); [discriminate|].
+  destruct (infixb s_all k) eqn:Hall.
+  - (* key with all: value lists are concatenated *)
+    inversion H; subst. clear H. unfold key_wf in Hwf. rewrite Hall in Hwf. symmetry in Hwf.
+    rewrite (den_set_present _ _ _ _ Hg), (den_get_del _ _ _ Hg).
+    rewrite !den_entry_all by exact Hwf. cbn [vals_of]. unfold aslist. rewrite forallb_app.
+    destruct (forallb (h (base_key k)) (vals_of ev)), (forallb (h (base_key k)) (vals_of v)), (den (md_del k md)); reflexivity.
+  - (* two single values: moved to key|all *)
+    unfold key_wf in Hwf. rewrite Hall in Hwf. symmetry in Hwf.
+    destruct (is_many (unwrap1 ev) || is_many (unwrap1 v)) eqn:Hm; [discriminate|].
+    apply orb_false_iff in Hm. destruct Hm as [Hm1 Hm2].
+    destruct (not_many_one _ Hm1) as [x Hx]. destruct (not_many_one _ Hm2) as [y Hy].
+    unfold aslist in H. rewrite !vals_unwrap, Hx, Hy in H. cbn [app] in H.
+    assert (Hne : str_eqb k (k ++ s_all) = false) by (apply str_eqb_app_ne; discriminate).
+    assert (Ek : den_entry (k, ev) = h (base_key k) x) by (rewrite den_entry_any, Hx by exact Hwf; simpl; apply orb_false_r).
+    assert (Ev : den_entry (k, v) = h (base_key k) y) by (rewrite den_entry_any, Hy by exact Hwf; simpl; apply orb_false_r).
+    rewrite (den_get_del _ _ _ Hg), Ek, Ev.
+    destruct (md_get (k ++ s_all) md) as [mak|] eqn:Ha; inversion H; subst; clear H.
+    + rewrite (del_set_comm _ _ _ Hne _ _ Ha).
+      assert (Ha' : md_get (k ++ s_all) (md_del k md) = Some mak) by (rewrite get_del_other; assumption).
+      rewrite (den_set_present _ _ _ _ Ha'), (den_get_del _ _ _ Ha').
+      rewrite !den_entry_all by apply segs_all_app. rewrite base_key_app. cbn [vals_of]. rewrite forallb_app. simpl.
+      destruct (forallb (h (base_key k)) (vals_of mak)), (h (base_key k) x), (h (base_key k) y),
+               (den (md_del (k ++ s_all) (md_del k md))); reflexivity.
+    + rewrite (md_set_absent _ _ _ Ha), (del_app_present _ _ _ _ Hg), den_app.
+      unfold den_map at 2. cbn [forallb]. rewrite den_entry_all by apply segs_all_app. rewrite base_key_app. simpl.
+      destruct (h (base_key k) x), (h (base_key k) y), (den (md_del k md)); reflexivity.
+Qed.
+
+Theorem merge_sound : forall es md0 md,
+  Forall (fun kv => key_wf (fst kv)) es -> merge_all md0 es = Ok md -> den md = den md0 && den es.
+Proof.
+  induction es as [|[k v] es IH]; intros md0 md Hwf H.
+  - inversion H; subst. unfold den_map at 3. simpl. rewrite andb_true_r. reflexivity.
+  - cbn [merge_all] in H. apply obind_ok in H. destruct H as [md1 [H1 H2]].
+    inversion Hwf; subst. rewrite (IH _ _ H4 H2). rewrite (merge_step_sound _ _ _ _ H3 H1).
+    unfold den_map at 4. cbn [forallb]. fold (den es). rewrite andb_assoc. reflexivity.
+Qed.
+End MergeMeaning.
+
+(* the keys to_plain writes are read the same way by the substring test and by from_mapping *)
+Lemma infixb_skip_nopipe q x y : mem c_pipe x = false -> infixb (c_pipe :: q) (x ++ y) = infixb (c_pipe :: q) y.
+Proof.
+  induction x as [|c x IH]; intros H; [reflexivity|].
+  apply nopipe_cons in H. destruct H as [Hc Hx].
+  cbn [app infixb prefixb]. rewrite N.eqb_sym, Hc. cbn [andb orb]. apply IH. exact Hx.
+Qed.
+
+Lemma all_prefix m y : prefixb s_allid (canon_id m ++ y) = mcls_eqb M_All m.
+Proof. destruct m; reflexivity. Qed.
+Lemma all_id m : str_eqb s_allid (canon_id m) = mcls_eqb M_All m.
+Proof. destruct m; reflexivity. Qed.
+
+Lemma infixb_ids ms : infixb s_all (flat_map (fun m => c_pipe :: canon_id m) ms) = has_mod M_All ms.
+Proof.
+  induction ms as [|m ms IH]; [reflexivity|].
+  cbn [flat_map]. change ((c_pipe :: canon_id m) ++ ?y) with (c_pipe :: (canon_id m ++ y)).
+  change s_all with (c_pipe :: s_allid). cbn [infixb prefixb]. rewrite N.eqb_refl. cbn [andb].
+  rewrite all_prefix. rewrite infixb_skip_nopipe by apply canon_nopipe.
+  change (c_pipe :: s_allid) with s_all. rewrite IH. reflexivity.
+Qed.
+
+Lemma key_of_wf f ms : field_ok f -> key_wf (key_of f ms).
+Proof.
+  intros Hf. unfold key_wf, key_of, segs_all.
+  assert (Hx : mem c_pipe (match f with Some x => x | None => [] end) = false).
+  { destruct f; [apply Hf | reflexivity]. }
+  rewrite split_ids by exact Hx. cbn [tl].
+  change s_all with (c_pipe :: s_allid). rewrite infixb_skip_nopipe by exact Hx.
+  change (c_pipe :: s_allid) with s_all. rewrite infixb_ids.
+  unfold has_mod. induction ms as [|m ms IH]; [reflexivity|]. cbn [existsb map]. rewrite all_id, IH. reflexivity.
+Qed.
+
+Lemma den_unwrap h md : den_map h (map (fun kv => (fst kv, unwrap1 (snd kv))) md) = den_map h md.
+Proof.
+  unfold den_map. induction md as [|[k v] md IH]; [reflexivity|].
+  cbn [map forallb fst snd]. rewrite IH. unfold den_entry. cbn [fst snd]. rewrite vals_unwrap. reflexivity.
+Qed.
+
+(* the mapping written by SigmaDetection.to_plain for all-dict results means the AND of the items' entries *)
+Theorem merge_written_sound h es md :
+  Forall (fun kv => key_wf (fst kv)) es -> merge_all [] es = Ok md ->
+  den_map h (map (fun kv => (fst kv, unwrap1 (snd kv))) md) = den_map h es.
+Proof. intros Hwf H. rewrite den_unwrap. rewrite (merge_sound h es [] md Hwf H). reflexivity. Qed.
